@@ -243,3 +243,162 @@ func (fi *fnInfo) classify(s *Site, b *ssa.BasicBlock) {
 }
 
 var _ = token.ADD
+
+// ArgInfo reports, for a slice value passed at a call in block `at` of fn, the
+// proven minimum length and whether the analysis' knowledge of that slice is
+// complete and its provenance arbitrary (descends from the root parameter with
+// only recognised guards): only then can a callee's requirement be turned into
+// a definite finding.
+func ArgInfo(fn *ssa.Function, root *RootInfo, arg ssa.Value, at *ssa.BasicBlock) (have int, arbitrary bool) {
+	fi := &fnInfo{fn: fn}
+	if root != nil {
+		fi.rootParam = root.Data
+		fi.rootMin = root.MinLen
+	}
+	computeFacts(fi)
+	if !LiveBlocks(fn)[at] {
+		return 1 << 30, false
+	}
+	have = fi.minLen(arg, at, map[ssa.Value]bool{})
+	s := Site{Fn: fn, Slice: arg, Need: 1 << 30}
+	if fi.facts[at] == nil {
+		return have, false
+	}
+	fi.classify(&s, at)
+	return have, s.Class == "DEF"
+}
+
+// Advance describes how a loop variable moves per iteration.
+type Advance struct {
+	Phi   *ssa.Phi
+	Step  ssa.Value       // the amount added / the low bound of the re-slice
+	At    ssa.Instruction // the advancing instruction
+	LB    int             // proven lower bound of Step at that point
+	Taint bool            // Step derives from packet bytes / decoded fields
+	Kind  string          // "reslice" | "offset"
+}
+
+// LoopAdvances finds, for every loop-carried slice or integer variable of fn,
+// the per-iteration advance and its proven lower bound.
+func LoopAdvances(fn *ssa.Function, root *RootInfo) []Advance {
+	if len(fn.Blocks) == 0 {
+		return nil
+	}
+	fi := &fnInfo{fn: fn}
+	if root != nil {
+		fi.rootParam = root.Data
+		fi.rootMin = root.MinLen
+	}
+	computeFacts(fi)
+	live := LiveBlocks(fn)
+	var out []Advance
+	for _, b := range fn.Blocks {
+		if !live[b] {
+			continue
+		}
+		for _, ins := range b.Instrs {
+			ph, ok := ins.(*ssa.Phi)
+			if !ok {
+				break
+			}
+			for i, e := range ph.Edges {
+				pred := b.Preds[i]
+				if !b.Dominates(pred) {
+					continue // not a back edge
+				}
+				switch x := e.(type) {
+				case *ssa.Slice:
+					if x.High != nil || x.Low == nil {
+						continue
+					}
+					if !reachesPhi(x.X, ph, 0) {
+						continue
+					}
+					lb := fi.intLB(x.Low, x.Block(), 0)
+					out = append(out, Advance{Phi: ph, Step: x.Low, At: x, LB: lb, Taint: tainted(x.Low, 0), Kind: "reslice"})
+				case *ssa.BinOp:
+					if x.Op != token.ADD {
+						continue
+					}
+					var step ssa.Value
+					if reachesPhi(x.X, ph, 0) {
+						step = x.Y
+					} else if reachesPhi(x.Y, ph, 0) {
+						step = x.X
+					}
+					if step == nil {
+						continue
+					}
+					if _, isInt := ph.Type().Underlying().(*types.Basic); !isInt {
+						continue
+					}
+					lb := fi.intLB(step, x.Block(), 0)
+					out = append(out, Advance{Phi: ph, Step: step, At: x, LB: lb, Taint: tainted(step, 0), Kind: "offset"})
+				}
+			}
+		}
+	}
+	return out
+}
+
+func reachesPhi(v ssa.Value, ph *ssa.Phi, depth int) bool {
+	if depth > 6 {
+		return false
+	}
+	if v == ssa.Value(ph) {
+		return true
+	}
+	switch x := v.(type) {
+	case *ssa.Slice:
+		return reachesPhi(x.X, ph, depth+1)
+	case *ssa.Phi:
+		for _, e := range x.Edges {
+			if e != ssa.Value(x) && reachesPhi(e, ph, depth+1) {
+				return true
+			}
+		}
+	case *ssa.Convert:
+		return reachesPhi(x.X, ph, depth+1)
+	}
+	return false
+}
+
+// tainted: v derives from a byte of a slice, a binary.UintNN result or a struct field.
+func tainted(v ssa.Value, depth int) bool {
+	if depth > 8 {
+		return false
+	}
+	switch x := v.(type) {
+	case *ssa.Convert:
+		return tainted(x.X, depth+1)
+	case *ssa.ChangeType:
+		return tainted(x.X, depth+1)
+	case *ssa.BinOp:
+		return tainted(x.X, depth+1) || tainted(x.Y, depth+1)
+	case *ssa.UnOp:
+		if x.Op == token.MUL {
+			// a byte of a slice; struct fields go through memory the analysis does not
+			// track across the loop body, so they are not a basis for a definite claim
+			if ia, ok := x.X.(*ssa.IndexAddr); ok {
+				if _, isSlice := ia.X.Type().Underlying().(*types.Slice); isSlice {
+					return true
+				}
+			}
+			return false
+		}
+		return tainted(x.X, depth+1)
+	case *ssa.Call:
+		if f := x.Call.StaticCallee(); f != nil && f.Pkg != nil && f.Pkg.Pkg.Path() == "encoding/binary" {
+			return true
+		}
+	case *ssa.Phi:
+		for _, e := range x.Edges {
+			if e != ssa.Value(x) && tainted(e, depth+1) {
+				return true
+			}
+		}
+	case *ssa.Extract:
+		return tainted(x.Tuple, depth+1)
+	}
+	return false
+}
